@@ -54,16 +54,16 @@ theorem count_map_taken (L : List Row) (r : Row) : (L.map Ev.taken).count (Ev.ta
 theorem count_map_taken_created (L : List Row) (r : Row) : (L.map Ev.taken).count (Ev.created r) = 0 := by
   induction L with
   | nil => simp
-  | cons a t ih => simp [List.count_cons, ih]
+  | cons a t ih => simp [ih]
 
 theorem count_map_taken_reclaimed (L : List Row) (r : Row) : (L.map Ev.taken).count (Ev.reclaimed r) = 0 := by
   induction L with
   | nil => simp
-  | cons a t ih => simp [List.count_cons, ih]
+  | cons a t ih => simp [ih]
 
 theorem count_map_taken_pushed (L : List Row) (r : Row) : (L.map Ev.taken).count (Ev.pushed r) = 0 := by
   induction L with
   | nil => simp
-  | cons a t ih => simp [List.count_cons, ih]
+  | cons a t ih => simp [ih]
 
 end Momo.Rows
